@@ -93,7 +93,12 @@ def conclude(rep, traces, prefixes):
     drift = {}
     for tr, v in zip(traces, verdicts):
         for step, clause in v:
-            if clause.startswith(prefixes):
+            if clause.startswith(prefixes) and rep.pid == 'C07' and tr['_script']['cfg']['version'] not in (0, 1, 2):
+                # the property quantifies over the documented coarsening versions 0-2: other versions are driven to extend the coverage of the
+                # specification, what they show is reported as drift and never decides the property
+                k = 'version %s (outside the documented versions 0-2): %s' % (tr['_script']['cfg']['version'], clause)
+                drift[k] = drift.get(k, 0) + 1
+            elif clause.startswith(prefixes):
                 cfg = tr['_script']['cfg']
                 rep.violation(clause, signature(tr, step, clause),
                               {'script': tr['_script'], 'failing_step': step, 'detail': tr.get('_detail'), 'event': tr['events'][step - 1]},
@@ -131,6 +136,9 @@ def collect(rep, tier, seed, prefixes):
             rep.exclude('random history %s timed out' % c['name'])
             continue
         except Exception as ex:
+            if rep.pid == 'C07' and c['version'] not in (0, 1, 2):
+                rep.drift('version %s (outside the documented versions 0-2): random history %s raised %r' % (c['version'], c['name'], ex))
+                continue
             rep.violation('C07_NoException', {'strategy': 'extendsplit', 'version': c['version'], 'lmin_ge_2': c['lmin'] >= 2, 'auto': bool(c.get('auto')), 'single': bool(c.get('single')), 'exception': type(ex).__name__},
                           {'config': str(c), 'exception': repr(ex)}, what='random history %s raised %r' % (c, ex))
             continue
